@@ -89,6 +89,7 @@ func TestC11Isolation(t *testing.T) {
 		nForeign := rapid.IntRange(0, 25).Draw(rt, "nForeign")
 		foreignEvery := rapid.IntRange(1, 5).Draw(rt, "foreignEvery")
 		var foreignPassed, foreignTotal, maxConcurrent, reconnected, staleFlushed int
+		inconclusive := false
 		rapid.SyncTest(rt, func(rt *rapid.T) {
 			s := sim.NewSessSim(0, 11)
 			s.DefaultDelay = 5
@@ -444,6 +445,15 @@ func TestC11Isolation(t *testing.T) {
 						}
 					}
 				}
+				if !s.ScriptsDone() {
+					// the premise "faults over" is not met while a fault script still has
+					// datagrams to decide on (probe back-off can stretch it over hours)
+					if s.Now() > 6*3600_000 {
+						inconclusive = true
+						break
+					}
+					lastProgressAt = s.Now()
+				}
 				if sig != lastSig {
 					lastSig, lastProgressAt = sig, s.Now()
 				} else if s.Now()-lastProgressAt > allowance() {
@@ -453,7 +463,7 @@ func TestC11Isolation(t *testing.T) {
 					break
 				}
 			}
-			if s.Err() == nil {
+			if s.Err() == nil && !inconclusive {
 				for _, p := range peers {
 					if p.reached && p.accepts != 1 {
 						s.Fail("peer %s conv %#x (incarnation %d): datagrams reached the listener but Accept returned it %d times", p.addr, p.conv, p.inc, p.accepts)
@@ -484,6 +494,9 @@ func TestC11Isolation(t *testing.T) {
 		}
 		if fec[0] > 0 {
 			cl = append(cl, "fec_on")
+		}
+		if inconclusive {
+			rec.Class("script_unfinished_inconclusive", 1)
 		}
 		for i := 0; i < staleFlushed; i++ {
 			rec.Exclude(c11KeyStaleFEC)
